@@ -44,5 +44,88 @@ Definition cursor_description : fdef :=
      f_body := [(SReturn (Some (XAttr (XName "self") "_description")))];
      f_gen := false |}.
 
+(* beanquery.cursor.Cursor.__init__ *)
+Definition cursor_init : fdef :=
+  {| f_params := ["self"; "connection"];
+     f_body := [(SAssign (TSelf "_context") (XName "connection")); (SAssign (TSelf "_description") (XConst PNone)); (SAssign (TSelf "_rows") (XConst PNone)); (SAssign (TSelf "_rowcount") (XConst (PInt (-1)))); (SAssign (TSelf "_pos") (XConst (PInt 0))); (SAssign (TSelf "arraysize") (XConst (PInt 1)))];
+     f_gen := false |}.
+
+(* beanquery.cursor.Cursor.execute *)
+Definition cursor_execute : fdef :=
+  {| f_params := ["self"; "query"; "params"];
+     f_body := [(SIf (XNot (XCall (XConst (PRef 1)) [(XName "query"); (XConst (PRef 0))] None)) [(SAssign (TName "query") (XCall (XConst (PRef 2)) [(XName "query")] None))] []); (SAssign (TName "query") (XCall (XConst (PRef 3)) [(XAttr (XName "self") "_context"); (XName "query"); (XName "params")] None)); (SUnpack [(TName "description"); (TName "rows")] (XCall (XConst (PRef 4)) [(XName "query")] None)); (SAssign (TSelf "_description") (XName "description")); (SAssign (TSelf "_rows") (XName "rows")); (SAssign (TSelf "_rowcount") (XLen (XName "rows"))); (SAssign (TSelf "_pos") (XConst (PInt 0))); (SReturn (Some (XName "self")))];
+     f_gen := false |}.
+Definition cursor_execute_defaults : list expr := [(XConst PNone)].
+
+(* beanquery.cursor.Cursor.connection *)
+Definition cursor_connection : fdef :=
+  {| f_params := ["self"];
+     f_body := [(SReturn (Some (XAttr (XName "self") "_context")))];
+     f_gen := false |}.
+
+(* beanquery.cursor.Column.__init__ *)
+Definition column_init : fdef :=
+  {| f_params := ["self"; "name"; "datatype"];
+     f_body := [(SAssign (TSelf "_name") (XName "name")); (SAssign (TSelf "_type") (XName "datatype"))];
+     f_gen := false |}.
+
+(* beanquery.cursor.Column.__len__ *)
+Definition column_len : fdef :=
+  {| f_params := ["self"];
+     f_body := [(SReturn (Some (XConst (PInt 7))))];
+     f_gen := false |}.
+
+(* beanquery.cursor.Column.__getitem__ *)
+Definition column_getitem : fdef :=
+  {| f_params := ["self"; "key"];
+     f_body := [(SIf (XCall (XConst (PRef 1)) [(XName "key"); (XConst (PRef 5))] None) [(SReturn (Some (XCall (XConst (PRef 6)) [(XListComp (XCall (XName "getter") [(XName "self")] None) "getter" (XIndex (XAttr (XName "self") "_vars") (XName "key")) None)] None)))] []); (SReturn (Some (XCall (XIndex (XAttr (XName "self") "_vars") (XName "key")) [(XName "self")] None)))];
+     f_gen := false |}.
+
+(* beanquery.cursor.Column.name *)
+Definition column_prop_name : fdef :=
+  {| f_params := ["self"];
+     f_body := [(SReturn (Some (XAttr (XName "self") "_name")))];
+     f_gen := false |}.
+
+(* beanquery.cursor.Column.type_code *)
+Definition column_prop_type_code : fdef :=
+  {| f_params := ["self"];
+     f_body := [(SReturn (Some (XCall (XConst (PRef 7)) [(XAttr (XName "self") "_type")] None)))];
+     f_gen := false |}.
+
+(* beanquery.cursor.Column.display_size *)
+Definition column_prop_display_size : fdef :=
+  {| f_params := ["self"];
+     f_body := [(SReturn (Some (XConst PNone)))];
+     f_gen := false |}.
+
+(* beanquery.cursor.Column.internal_size *)
+Definition column_prop_internal_size : fdef :=
+  {| f_params := ["self"];
+     f_body := [(SReturn (Some (XConst PNone)))];
+     f_gen := false |}.
+
+(* beanquery.cursor.Column.precision *)
+Definition column_prop_precision : fdef :=
+  {| f_params := ["self"];
+     f_body := [(SReturn (Some (XConst PNone)))];
+     f_gen := false |}.
+
+(* beanquery.cursor.Column.scale *)
+Definition column_prop_scale : fdef :=
+  {| f_params := ["self"];
+     f_body := [(SReturn (Some (XConst PNone)))];
+     f_gen := false |}.
+
+(* beanquery.cursor.Column.null_ok *)
+Definition column_prop_null_ok : fdef :=
+  {| f_params := ["self"];
+     f_body := [(SReturn (Some (XConst PNone)))];
+     f_gen := false |}.
+
 Definition refs : list (nat * string) :=
-  [].
+  [(0%nat, "beanquery.parser.ast.Node"); (1%nat, "builtins.isinstance"); (2%nat, "beanquery.parser.parse"); (3%nat, "beanquery.compiler.compile"); (4%nat, "beanquery.query_execute.execute_query"); (5%nat, "builtins.slice"); (6%nat, "builtins.tuple"); (7%nat, "builtins.hash")].
+
+(* beanquery.cursor.Column._vars: the attribute each attrgetter reads, and the translated property *)
+Definition column_vars : list (string * fdef) :=
+  [("name", column_prop_name); ("type_code", column_prop_type_code); ("display_size", column_prop_display_size); ("internal_size", column_prop_internal_size); ("precision", column_prop_precision); ("scale", column_prop_scale); ("null_ok", column_prop_null_ok)].
